@@ -67,6 +67,14 @@ ScanR(s, cs, d, j, acc) ==
        ELSE ScanR(s, cs, d, j + 1, acc)
 ScanHits(s, cs, d) == ScanR(s, cs, d, 0, {})
 
+\* the scan's own counters, as gopar reports them to its delegate: << hits, misses >>
+RECURSIVE ScanStatsR(_, _, _, _, _, _)
+ScanStatsR(s, cs, d, j, h, m) ==
+  IF j >= Len(d) THEN << h, m >>
+  ELSE IF Window(s, d, j) \in cs THEN ScanStatsR(s, cs, d, j + s, h + 1, m)
+       ELSE ScanStatsR(s, cs, d, j + 1, h, m + 1)
+ScanStats(s, cs, d) == ScanStatsR(s, cs, d, 0, 0, 0)
+
 \* slice positions credited by the greedy scan over all present protected files
 Found(s, names, prot, disk) ==
   LET cs == Contents(s, names, prot) IN
